@@ -1,6 +1,7 @@
 (* C17 — property theorems only. *)
 From Coq Require Import ZArith List Bool Arith.
-From Verif Require Import C17.Model C17.Proofs C17.Proofs2.
+From Coq Require Import Permutation Sorted.
+From Verif Require Import C17.Model C17.Proofs C17.Proofs2 C17.Proofs3.
 Import ListNotations.
 
 (* Notify consults exactly the dot-ancestors of the normalised name (joins of its leading non-empty segments), most specific last
@@ -60,6 +61,32 @@ Print Assumptions C17_register_unregister_merge.
 Theorem C17_every_history_refines_the_registration_set : forall ops, outs_ok (sinit, sinit) ops (run ops).
 Proof. exact history_refines. Qed.
 Print Assumptions C17_every_history_refines_the_registration_set.
+(* ---- delivery (Proofs3.v): the calls one Notify makes. deliver = the targets map sorted by non-increasing priority, each target
+   called inside notifyTarget (panic -> one report to the recovery handler, the loop goes on). ---- *)
+(* each registered target of the name or an ancestor is called exactly once, with the priority of the most specific name, nobody
+   else is called, the calls are in non-increasing priority order, and - whichever targets panic - every one of them is still
+   called, the recovery handler hearing of exactly the panicking ones, once each *)
+Theorem C17_delivery_once_in_priority_order_despite_panics : forall panics n name, enabled n = true -> segs name [] <> [] ->
+  NoDup (map fst (calls (deliver panics n name))) /\
+  (forall t p, In (t, p) (calls (deliver panics n name)) <-> msp (R n) (ancestors name) t = Some p) /\
+  StronglySorted (fun a b => (snd a >= snd b)%Z) (calls (deliver panics n name)) /\
+  (forall t, In t (recovered (deliver panics n name)) <-> panics t = true /\ exists p, msp (R n) (ancestors name) t = Some p) /\
+  NoDup (recovered (deliver panics n name)).
+Proof. exact delivery_exact. Qed.
+Print Assumptions C17_delivery_once_in_priority_order_despite_panics.
+Theorem C17_delivery_is_a_sorted_permutation_of_the_targets : forall panics n name,
+  Permutation (calls (deliver panics n name)) (notify n name) /\
+  StronglySorted (fun a b => (snd a >= snd b)%Z) (calls (deliver panics n name)) /\
+  recovered (deliver panics n name) = filter panics (map fst (calls (deliver panics n name))).
+Proof. exact delivery_order. Qed.
+Print Assumptions C17_delivery_is_a_sorted_permutation_of_the_targets.
+Theorem C17_no_delivery_when_disabled_or_unnamed : forall panics n name, enabled n = false \/ segs name [] = [] -> deliver panics n name = [].
+Proof. exact delivery_none. Qed.
+Print Assumptions C17_no_delivery_when_disabled_or_unnamed.
+Example C17_ex_delivery :
+  let a := register isBatch (register isBatch (register isBatch new 0 1%Z [[97]]) 2 9%Z [[97; 46; 98]]) 1 5%Z [[97]] in
+  deliver (fun t => t =? 2) a [97; 46; 98] = [ECall 2 9%Z; ERecovered 2; ECall 1 5%Z; ECall 0 1%Z].
+Proof. vm_compute. reflexivity. Qed.
 (* non-vacuity: after Register, merge and Unregister the specification prescribes a non-trivial delivery *)
 Example C17_ex_history :
   let ops := [OReg 0 1 5%Z [[97]]; OReg 1 2 7%Z [[97; 46; 98]]; OReg 1 1 9%Z [[97; 46; 98]]; OFrom 0; OUnreg 1 1; ONotify 0 [97; 46; 98; 46; 99]; OUnreg 0 1; ONotify 0 [97; 46; 98]] in
